@@ -14,7 +14,11 @@ func VerifDeterminism() {
 	site := v.Param("site")
 	budget := v.Param("budget")
 	sh := zzShapes[v.Param("shape")]
-	in := zzMakeInputs(sh, 1, 2) // concrete amounts and prices: the subject is iteration order
+	mode := 1
+	if sh.cyclic {
+		mode = 0 // concrete prices (products of symbolic prices along alternative paths are not decided in time)
+	}
+	in := zzMakeInputs(sh, mode, 2) // the subject is iteration order
 	dirs := func(reg *model.Registry) []model.Directive { return zzShapeDirectives(reg, sh, in, nil) }
 	zzSchedule = 0
 	kind := v.Param("cmd")
@@ -58,6 +62,10 @@ func VerifDeterminism() {
 	o2, t2, e2 := run()
 	v.Assert((e1 == nil) == (e2 == nil), "same-exit-status")
 	if e1 != nil || e2 != nil {
+		return
+	}
+	if sh.cyclic {
+		v.AssertExcept(o1 == o2 && zzSameRows(t1, t2), "same-output-on-every-run", "C06-F18", true)
 		return
 	}
 	v.AssertExcept(o1 == o2 && zzSameRows(t1, t2), "same-output-on-every-run", "C06-F2", weighted)
